@@ -67,15 +67,66 @@ func c17Verify(w *World, r *Report) {
 		}
 		byName[FuncName(origin(f))] = c
 	}
+	// the decoder and the verifier are found by what they do (whatever they are called, method or
+	// function): the provenance function called from Verify that decodes the clear-signed block, and the
+	// one that checks the detached signature
+	decName, verName := "(*pkg/provenance.Signatory).decodeSignature", "(*pkg/provenance.Signatory).verifySignature"
+	var verFn *ssa.Function
+	var verCall ssa.CallInstruction
+	for _, c := range callInstrs(fn) {
+		f, _ := calleeOf(c.Common())
+		if f == nil || !inHelm(f) {
+			continue
+		}
+		for _, cc := range callInstrs(f) {
+			g2, _ := calleeOf(cc.Common())
+			if g2 == nil {
+				continue
+			}
+			switch {
+			case strings.HasSuffix(fnPkgPath(g2), "openpgp/clearsign") && g2.Name() == "Decode":
+				decName = FuncName(origin(f))
+			case strings.HasSuffix(fnPkgPath(g2), "/openpgp") && g2.Name() == "CheckDetachedSignature":
+				verName = FuncName(origin(f))
+				verFn, verCall = origin(f), c
+			}
+		}
+	}
 	for _, e := range []struct{ key, fn string }{
-		{"decode-signature", "(*pkg/provenance.Signatory).decodeSignature"},
-		{"verify-signature", "(*pkg/provenance.Signatory).verifySignature"},
+		{"decode-signature", decName},
+		{"verify-signature", verName},
 		{"digest-archive", "pkg/provenance.DigestFile"},
 		{"parse-signed-message", "pkg/provenance.parseMessageBlock"},
 	} {
 		c := byName[e.fn]
 		if c == nil {
-			r.Bad("C17/VERIFY-MPT", e.key, w.Pos(fn.Pos()), "Verify no longer calls "+e.fn)
+			// the step may be written out in Verify itself (or have been expanded into it)
+			var direct ssa.CallInstruction
+			var edges []Edge
+			for _, dc := range callInstrs(fn) {
+				g2, _ := calleeOf(dc.Common())
+				if g2 == nil {
+					continue
+				}
+				switch {
+				case e.key == "decode-signature" && strings.HasSuffix(fnPkgPath(g2), "openpgp/clearsign") && g2.Name() == "Decode":
+					direct = dc
+					_, nonNil := nilTestEdges(resultN(dc, 0)) // a nil block means "not a signed message"
+					edges = nonNil
+				case e.key == "verify-signature" && strings.HasSuffix(fnPkgPath(g2), "/openpgp") && g2.Name() == "CheckDetachedSignature":
+					direct = dc
+					edges = okEdgesOfCall(dc)
+					verFn, verCall = fn, nil
+				}
+			}
+			if direct == nil {
+				r.Bad("C17/VERIFY-MPT", e.key, w.Pos(fn.Pos()), "Verify no longer calls "+e.fn)
+				continue
+			}
+			if e.key == "decode-signature" {
+				byName[decName] = direct
+			}
+			steps = append(steps, step{e.key, edges, direct})
 			continue
 		}
 		steps = append(steps, step{e.key, okEdgesOfCall(c), c})
@@ -165,7 +216,10 @@ func c17Verify(w *World, r *Report) {
 		r.Check(ok, "C17/VERIFY-MPT", s.key, pos, "success is unreachable without the ok-edge of "+s.key, "Verify can return success without passing "+s.key+" (another way to success exists)")
 	}
 	// verifySignature: CheckDetachedSignature(s.KeyRing, block.Bytes, block.ArmoredSignature.Body)
-	vs := w.Fn("pkg/provenance", "Signatory.verifySignature")
+	vs := verFn
+	if vs == nil {
+		vs = w.Fn("pkg/provenance", "Signatory.verifySignature")
+	}
 	if vs == nil {
 		r.Unk("C17/VERIFY-MPT", "signature-operands", "-", "verifySignature not found")
 		return
@@ -179,13 +233,40 @@ func c17Verify(w *World, r *Report) {
 		}
 		args := c.Common().Args
 		kr := false
-		backSlice(args[0], func(v ssa.Value) bool {
-			if _, t, fld := fieldNameOf(v); t == "Signatory" && fld == "KeyRing" {
-				kr = true
+		isKeyRing := func(v ssa.Value) bool {
+			found := false
+			backSlice(v, func(x ssa.Value) bool {
+				if _, t, fld := fieldNameOf(x); t == "Signatory" && fld == "KeyRing" {
+					found = true
+				}
+				return found
+			})
+			return found
+		}
+		kr = isKeyRing(args[0])
+		if !kr && verCall != nil {
+			// the keyring is a parameter: the caller hands in the receiver's keyring
+			if p, isP := resolveToParam(args[0]).(*ssa.Parameter); isP && p.Parent() == vs {
+				if i := paramIndex(vs, p); i >= 0 && i < len(verCall.Common().Args) {
+					kr = isKeyRing(verCall.Common().Args[i])
+				}
 			}
-			return false
-		})
-		blockParam := ssa.Value(vs.Params[1])
+		}
+		var blockParam ssa.Value
+		for _, p := range vs.Params {
+			if strings.HasSuffix(p.Type().String(), "clearsign.Block") {
+				blockParam = p
+			}
+		}
+		if blockParam == nil {
+			// written out in Verify: the block is the decoder's result
+			if d := byName[decName]; d != nil {
+				blockParam = resultN(d, 0)
+			}
+		}
+		if blockParam == nil {
+			continue
+		}
 		okOps = kr && derivesFromValue(args[1], blockParam) && derivesFromValue(args[2], blockParam)
 		// its error is returned
 	}
@@ -193,7 +274,7 @@ func c17Verify(w *World, r *Report) {
 	// the message parsed for the digests is the verified block's plaintext
 	okMsg := false
 	if c := byName["pkg/provenance.parseMessageBlock"]; c != nil {
-		if d := byName["(*pkg/provenance.Signatory).decodeSignature"]; d != nil {
+		if d := byName[decName]; d != nil {
 			okMsg = derivesFromValue(c.Common().Args[0], resultN(d, 0))
 		}
 	}
@@ -269,6 +350,8 @@ func c17Required(w *World, r *Report) {
 					if _, t, f := fieldNameOf(st.Addr); t == "ChartDownloader" && f == "Verify" {
 						if i, ok := constInt(st.Val); ok && i == always {
 							setAlways = st
+						} else if a := sp.Eval(lc, st.Val); a.k == 4 && a.i == always && lg.Reachable()[st.Block()] {
+							setAlways = st // chosen before the literal: the value is VerifyAlways whenever Verify is set
 						}
 					}
 				}
@@ -565,6 +648,8 @@ func c17PullVerify(w *World, r *Report) {
 			}
 			if k, isC := constInt(st.Val); isC && k == verifyAlwaysValue(w) {
 				always = append(always, st)
+			} else if a := spec.Eval(fn, st.Val); a.k == 4 && a.i == verifyAlwaysValue(w) {
+				always = append(always, st) // the mode was chosen before the literal: it is VerifyAlways under --verify
 			} else {
 				other = append(other, st)
 			}
